@@ -7,6 +7,7 @@
 // vector read past size() aborts deterministically even when it stays inside the capacity.
 #include "common/proto.h"
 #include <vector>
+#include <sstream>
 #include "ompl/util/Exception.h"
 #define private public
 #include "ompl/datastructures/PDF.h"
@@ -113,6 +114,55 @@ int main()
             size_t h = *vp::parseNat(t[1]);
             if (!alive(h)) { fin("dead"); continue; }
             fin("w=" + vp::bits(pdf.getWeight(handles[h])));
+        }
+        else if (op == "emp" && t.size() == 1)
+        {
+            fin(std::string("e=") + (pdf.empty() ? "1" : "0") + " sz=" + std::to_string(pdf.size()) +
+                " els=" + std::to_string(pdf.getElements().size()));
+        }
+        else if (op == "at" && t.size() == 2 && vp::parseNat(t[1]))
+        {
+            size_t i = *vp::parseNat(t[1]);
+            if (i >= pdf.size())
+                fin("oob");  // operator[] is unchecked: not called out of range
+            else
+                fin("d=" + std::to_string(pdf[(unsigned int)i]));
+        }
+        else if (op == "print" && t.size() == 1)
+        {
+            // printTree's text goes after ` || ` (stripped before the model comparison, checked by the oracle)
+            std::ostringstream os;
+            pdf.printTree(os);
+            std::string txt = os.str(), flat;
+            for (char c : txt)
+                flat += (c == '\n') ? '/' : c;
+            std::cout << "ok | " << dump(pdf) << " || " << flat << std::endl;
+        }
+        else if (op == "bulk")
+        {
+            size_t i = 1;
+            auto xs = vp::takeCounted(t, i);
+            bool ok = xs && i == t.size();
+            std::vector<double> ws;
+            std::vector<int> ds;
+            if (ok)
+                for (auto &x : *xs)
+                {
+                    auto v = vp::parseBits(x);
+                    if (!v) { ok = false; break; }
+                    ds.push_back((int)ws.size());
+                    ws.push_back(*v);
+                }
+            if (!ok) { std::cout << "bad-op" << std::endl; continue; }
+            try
+            {
+                P tmp(ds, ws);   // the (data, weights) constructor
+                fin("bulk " + dump(tmp));
+            }
+            catch (const ompl::Exception &)
+            {
+                fin("err-neg");
+            }
         }
         else if (op == "clear" && t.size() == 1)
         {
